@@ -5,6 +5,7 @@ import (
 	"os"
 	"path/filepath"
 	"sync"
+	"syscall"
 
 	"verif/corp"
 	"verif/gen"
@@ -90,6 +91,19 @@ func (s *sweeper) runOpt(texts []string, flags []string, wantLex, wantPar bool, 
 }
 
 func (s *sweeper) checkCross() {
+	if len(s.pool.Mismatch) > 0 && os.Getenv("VERIF_CLI_ONLY") == "" {
+		// the in-process job server and the real CLI disagree: the generator keeps state between runs inside one
+		// process (a package-level cache, say). Everything computed so far is discarded and the whole check starts
+		// again with one real CLI process per run.
+		fmt.Println("NOTE: in-process generator and real CLI disagree (" + s.pool.Mismatch[0] + "); restarting this check with one CLI process per run")
+		s.pool.Close()
+		os.RemoveAll(s.root)
+		env := append(os.Environ(), "VERIF_CLI_ONLY=1")
+		if err := syscall.Exec(selfPath(), os.Args, env); err != nil {
+			fmt.Fprintln(os.Stderr, "HARNESS-INCONSISTENT: cannot re-exec:", err)
+			os.Exit(3)
+		}
+	}
 	if len(s.pool.Mismatch) > 0 {
 		fmt.Fprintln(os.Stderr, "HARNESS-INCONSISTENT: in-process generator and real CLI disagree:")
 		for _, m := range s.pool.Mismatch {
@@ -124,4 +138,11 @@ func skipNotCompiling(it *corp.Item) bool {
 	}
 	fmt.Printf("NOTE: generated code of a corpus grammar does not compile and is left out (C09's subject): %s\n  grammar: %s flags %v\n", it.CompileErr, oneLine(it.Text), it.Flags)
 	return true
+}
+
+func selfPath() string {
+	if p, err := os.Executable(); err == nil {
+		return p
+	}
+	return os.Args[0]
 }
